@@ -95,3 +95,55 @@ def gil_atomic(wrapfile):
         rec["detail"] = "front end failed: %s" % ex
     rec["time_s"] = round(time.time() - t0, 3)
     return rec
+
+
+def wrapper_preconditions(wrapfile):
+    """The contract of partition() *requires* ihmax >= 1 and a C-contiguous float32 block of nk*nth elements.
+    Report whether specpart() itself establishes them (it does not test anything but the parse result): these
+    stay obligations of the Python call sites, outside this engine."""
+    out = []
+    t0 = time.time()
+    try:
+        unit = cast.Unit(wrapfile, _py_includes())
+        fn = unit.functions.get("specpart")
+        tested = set()
+
+        def conds(x):
+            if x.get("kind") == "IfStmt":
+                def outside_calls(y):      # variables compared directly, not merely passed (by address) to a call
+                    if y.get("kind") == "CallExpr":
+                        tested.add("%s()" % (cast.callee_name(y) or "<indirect>"))
+                        return
+                    if y.get("kind") == "DeclRefExpr":
+                        tested.add(y["referencedDecl"].get("name", ""))
+                    for z in y.get("inner", []):
+                        outside_calls(z)
+                outside_calls(x["inner"][0])
+            for ch in x.get("inner", []):
+                conds(ch)
+        conds(unit.body(fn))
+        refs, calls = [], []
+        _refs(unit.body(fn), refs, calls)
+        checks = {
+            "partition.ihmax": ("ihmax" in tested, "ihmax >= 1", {"ihmax": 0}),
+            "partition.spec_layout": (any(n in refs for n in ("PyArray_NDIM", "PyArray_TYPE", "PyArray_ISCONTIGUOUS",
+                                                              "PyArray_IS_C_CONTIGUOUS", "PyArray_FROM_OTF", "PyArray_FromAny",
+                                                              "PyArray_GETCONTIGUOUS", "PyArray_CheckFromAny"))
+                                      and any(t.startswith("PyArray_") for t in tested),
+                                      "spec is a live block of nk*nth float32 in C order (ndim == 2, dtype float32, contiguous)",
+                                      {"ndim": 1, "dtype": "float64"}),
+            "partition.sizes": ("nk" in tested or "nth" in tested, "nk, nth >= 1 and 9*nk*nth < 2^31", {"nk": 0}),
+        }
+        for lab, (ok, what, wit) in checks.items():
+            out.append({"function": "specpart_wrap", "name": "specpart_wrap:pre:%s" % lab, "kind": "pre",
+                        "status": "unknown" if ok else "outside", "solver": "clang-ast",
+                        "time_s": round(time.time() - t0, 3), "model": None,
+                        "detail": ("requires `%s` of partition(): specpart() tests %s before the call%s"
+                                   % (what, sorted(t for t in tested if t) or "nothing",
+                                      "; the test is not interpreted by this engine" if ok else
+                                      " -- NOT established in specpart_wrap.c (e.g. %s reaches partition() unchecked); "
+                                      "it remains an obligation of the Python call sites, outside this engine" % wit))})
+    except (cast.FrontEndError, OSError) as ex:
+        out.append({"function": "specpart_wrap", "name": "specpart_wrap:pre:frontend", "kind": "pre", "status": "unknown",
+                    "solver": "clang-ast", "time_s": 0.0, "model": None, "detail": "front end failed: %s" % ex})
+    return out
